@@ -96,4 +96,44 @@ theorem source_nt_eq_dc (acc : Acc) (fields : List (Name × HintAnns)) (vals : L
     (hn : (fields.map Prod.fst).Nodup) : Gen.ntConstruct acc fields vals = Gen.dcConstruct acc fields vals := by
   rw [nt_is_source, dc_is_source acc fields vals hn]
 
+/-- a whole pydantic validation as pydantic-core drives it: one `validate_tensor` call per annotated field, in declaration
+    order, all sharing the validation's `info.data` (no context in it before the first field) -/
+def pydValidation (acc : Acc) : Option CState → List (Name × Ann × Tensor) → Outcome CState
+  | data, [] => .ok (data.getD {})
+  | data, (n, a, t) :: rest =>
+    match Gen.pydField acc data n a t with
+    | .ok st => pydValidation acc (some st) rest
+    | .reject r => .reject r
+    | .pyExc e => .pyExc e
+    | .unmodelled => .unmodelled
+
+theorem pydValidation_some (acc : Acc) (st : CState) (fs : List (Name × Ann × Tensor)) :
+    pydValidation acc (some st) fs = validateIncremental acc st fs := by
+  induction fs generalizing st with
+  | nil => rfl
+  | cons f fs ih =>
+    obtain ⟨n, a, t⟩ := f
+    simp only [pydValidation, validateIncremental, (pyd_is_source acc st n a t).1]
+    cases pydanticField acc st n a t with
+    | ok st' => exact ih st'
+    | reject r => rfl
+    | pyExc e => rfl
+    | unmodelled => rfl
+
+/-- **C14 / C17 about the source**: a pydantic validation through the regenerated `validate_tensor` gives the verdict, report and
+    bindings of ONE batch run over the same fields on an empty context — the same as the NamedTuple / dataclass constructors -/
+theorem source_pydantic_eq_batch (acc : Acc) (fs : List (Name × Ann × Tensor)) :
+    pydValidation acc none fs = runEntries acc {} (fs.map C14.toEntry) := by
+  cases fs with
+  | nil => rfl
+  | cons f fs =>
+    obtain ⟨n, a, t⟩ := f
+    rw [← C14.incremental_eq_batch]
+    simp only [pydValidation, validateIncremental, (pyd_is_source acc {} n a t).2]
+    cases pydanticField acc {} n a t with
+    | ok st' => exact pydValidation_some acc st' fs
+    | reject r => rfl
+    | pyExc e => rfl
+    | unmodelled => rfl
+
 end Dltype.CoreClasses
